@@ -920,6 +920,33 @@ func (c *Ctx) ScatterIndexDiscipline(prop string) {
 								bad++
 								c.R.Fail(rule, Fn(W)+":"+fv.Name(), c.Pos(x), "a captured variable is assigned from concurrent workers", "workers write only their own slice positions", nil)
 							}
+						case *ssa.MapUpdate:
+							// a captured map written by several workers: the runtime aborts the whole process on overlapping map
+							// writes (fatal error, not recoverable) - allowed only under the mutex Scatter hands to the worker
+							m := x.Map
+							if u, ok := m.(*ssa.UnOp); ok {
+								if _, isFV := u.X.(*ssa.FreeVar); isFV {
+									locked := false
+									if f == W && len(W.Params) >= 3 {
+										mu := ssa.Value(W.Params[2])
+										target := ssa.Instruction(x)
+										if y, _ := an.Cut(an.CutQuery{From: an.Entry(W), Target: func(i ssa.Instruction) bool { return i == target },
+											AcceptInstr: func(i ssa.Instruction) bool {
+												ci, ok := i.(ssa.CallInstruction)
+												if !ok || ci.Common().StaticCallee() == nil || ci.Common().StaticCallee().Name() != "Lock" || len(ci.Common().Args) == 0 {
+													return false
+												}
+												return ci.Common().Args[0] == mu
+											}}); y == nil {
+											locked = true
+										}
+									}
+									if !locked {
+										bad++
+										c.R.Fail(rule, Fn(W)+":map", c.Pos(x), "a captured map is written by concurrent workers without the worker mutex: overlapping map writes are a fatal runtime error that terminates the process", "per-position slices, or the map only under the mutex passed to the worker", nil)
+									}
+								}
+							}
 						}
 					}
 				}
